@@ -14,6 +14,9 @@ import (
 	"verif/props/c11"
 	"verif/props/c12"
 	"verif/props/c13"
+	"verif/props/c14"
+	"verif/props/c15"
+	"verif/props/c19"
 	"verif/props/c20"
 )
 
@@ -30,6 +33,9 @@ var props = map[string]prop{
 	"C11": {"model_checking", c11.Run},
 	"C12": {"model_checking", c12.Run},
 	"C13": {"model_checking", c13.Run},
+	"C14": {"model_checking", c14.Run},
+	"C15": {"exploration", c15.Run},
+	"C19": {"exploration", c19.Run},
 	"C20": {"exploration", c20.Run},
 }
 
